@@ -1,15 +1,14 @@
 /-
-C04 for MDCPDP.
+C04 for MDCPDP (code after the upstream fix 476fa34).
 
-Batch part.  The batched `_step` is NOT the row-wise step: every row accumulates the step length of
-row 0 of the batch (`batch_rows_counterexample`).  What holds: row 0 itself is stepped exactly as on
-its own (`batchStep_row0`), and for the other rows everything except `current_length`,
-`arrivetime_record` and the finished-flag contribution to the mask is independent of row 0
-(`stepWith_lead_indep`).
+Batch part.  No statement of `_step` reads another row any more (the step length and the `done` flag
+are `[B, 1]` tensors), so the batched step is the row-wise step: `batchStep_eq_map`, with the
+consequence `batch_rows` for the reward state of every row at every position of any batch.
 
 Padding part.  In open mode a step taken after `done` (only node 0 is offered) changes neither `done`,
 nor the mask, nor the `minsum` reward (`pad_noop_open`).  In close mode it adds the last vehicle's way
-back (`pad_noop_counterexample`) — a leg that is missing from the unpadded reward (see C03).
+back (`pad_noop_counterexample`) — a leg that is missing from the unpadded reward (see C03; not fixed
+upstream).
 -/
 import Rl4co.Proofs.Mdcpdp
 import Rl4co.Props.C03.Mdcpdp
@@ -19,42 +18,16 @@ open Rl4co.Spec.Mdcpdp
 
 /-! ### batch part -/
 
-/-- the first row of a batch is stepped exactly as on its own -/
-theorem batchStep_row0 (i0 : Inst) (s0 : State) (rest : List (Inst × State)) (a0 : Nat) (as : List Nat) :
-    (batchStep ((i0, s0) :: rest) (a0 :: as)).head? = some (i0, step i0 s0 a0) := rfl
+/-- **C04 (MDCPDP), batch part: the batched step is the per-row step.** -/
+theorem batchStep_eq_map (rows : List (Inst × State)) (acts : List Nat) :
+    batchStep rows acts = List.zipWith (fun r a => (r.1, step r.1 r.2 a)) rows acts := rfl
 
-/-- what does not depend on row 0 -/
-theorem stepWith_lead_indep (L L' : Lead) (i : Inst) (s : State) (a : Nat) :
-    (stepWith L i s a).cur = (stepWith L' i s a).cur ∧
-    (stepWith L i s a).depot = (stepWith L' i s a).depot ∧
-    (stepWith L i s a).carry = (stepWith L' i s a).carry ∧
-    (stepWith L i s a).avail = (stepWith L' i s a).avail ∧
-    (stepWith L i s a).toDeliver = (stepWith L' i s a).toDeliver ∧
-    (stepWith L i s a).done = (stepWith L' i s a).done ∧
-    (L.done = L'.done → (stepWith L i s a).mask = (stepWith L' i s a).mask) := by
-  refine ⟨rfl, rfl, rfl, rfl, rfl, rfl, ?_⟩
-  intro h; simp only [stepWith, h]
-
-/-- The statement one would like: the reward state of every row of the batched step is the one of the
-row stepped on its own. -/
-def batch_rows_statement : Prop :=
-  ∀ (rows : List (Inst × State)) (acts : List Nat) (k : Nat) (r r0 : Inst × State) (a : Nat),
-    (batchStep rows acts)[k]? = some r → rows[k]? = some r0 → acts[k]? = some a →
-      reward .minsum r.1 r.2 = reward .minsum r0.1 (step r0.1 r0.2 a)
-
-def rowA : Inst :=
-  { N := 3, K := 1, split0 := 2, KG := 1, cap := fun _ => 1, D := fun a b => if a = b then 0 else 2,
-    openMode := false, wNum := 0, wDen := 1 }
-def rowB : Inst := { rowA with D := fun a b => if a = b then 0 else 1 }
-
-/-- Two rows that have both started (`[0]`) and now visit their pickup: row 1 travels distance 1 but is
-charged row 0's distance 2. -/
-theorem batch_rows_counterexample : ¬ batch_rows_statement := by
-  intro h
-  have := h [(rowA, step rowA (reset rowA) 0), (rowB, step rowB (reset rowB) 0)] [1, 1] 1
-    (rowB, stepWith { raw := 2, done := false } rowB (step rowB (reset rowB) 0) 1)
-    (rowB, step rowB (reset rowB) 0) 1 rfl rfl rfl
-  revert this; decide
+/-- every row of the batched step, at any position and next to any batch-mates, is the row stepped on
+its own -/
+theorem batch_rows (rows : List (Inst × State)) (acts : List Nat) (k : Nat) (r0 : Inst × State)
+    (a : Nat) (hr : rows[k]? = some r0) (ha : acts[k]? = some a) :
+    (batchStep rows acts)[k]? = some (r0.1, step r0.1 r0.2 a) := by
+  simp [batchStep, List.getElem?_zipWith, hr, ha]
 
 /-! ### padding part -/
 
